@@ -68,6 +68,7 @@ def run(P: Program, R: Report, tier: str) -> None:
         "bookkeeping of the same node collection; maxima never decrease on incremental paths; new node ids are reserved before "
         "replacements are drawn and each is membership-checked",
     ]
+    R.decides += ['memo discipline; annotator key names come from the feature dictionary; the special keys survive dump_json / from_json']
     R.not_decided += ["that get_track_neighbors / has_track_id_at_time return what a scan returns; cascades of the C05 findings (stale lineage cache)"]
     E = Effects(P)
     ann = P.class_named("TrackAnnotator")
